@@ -1586,7 +1586,9 @@ def fill_zeros_or_nan_in_tail(
 
     variance_density = xarray.DataArray(
         data=numba_fill_zeros_or_nan_in_tail(
-            variance_density.values,
+            # the kernel fills the tail in place: hand it a copy, not the
+            # values of the spectrum we were given.
+            variance_density.values.copy(),
             variance_density.frequency.values,
             power,
             tail_information=tail_information,
